@@ -297,11 +297,15 @@ type BFaultCase struct {
 }
 
 // process-level manifestations (cmd/vstage implements them)
-var bFaultKinds = []string{"exit1", "kill9", "segv", "errors-early", "assert-early", "panic", "exit1-late", "kill9-late", "kill-monitor"}
+var bFaultKinds = []string{"exit1", "kill9", "segv", "errors-early", "assert-early", "panic", "exit1-late", "kill9-late", "kill-monitor", "errors-nojournal"}
 
 func evalBFault(c BFaultCase, p *progen.Program, ref *progen.RefResult) (viol []string, class string) {
 	f := c.Fault
-	r1 := RunB(p, BOptions{Fault: &f, AutoRetry: c.Retries, KeepDir: true, Timeout: 90 * time.Second})
+	limit := 90 * time.Second
+	if f.Kind == "errors-nojournal" {
+		limit = 25 * time.Second // the failure mode is a hang
+	}
+	r1 := RunB(p, BOptions{Fault: &f, AutoRetry: c.Retries, KeepDir: true, Timeout: limit})
 	if r1.Err != "" {
 		return nil, "not-started"
 	}
@@ -359,7 +363,7 @@ func evalBFault(c BFaultCase, p *progen.Program, ref *progen.RefResult) (viol []
 	}
 	class = fmt.Sprintf("exit=%d", r1.Exit)
 	if r1.TimedOut {
-		return []string{fmt.Sprintf("job %s failed (%s) but mrp neither failed nor finished within 90 s", f.Job, f.Kind)}, class
+		return []string{fmt.Sprintf("job %s failed (%s) but mrp neither failed nor finished within %v", f.Job, f.Kind, limit)}, class
 	}
 	if success {
 		return []string{fmt.Sprintf("job %s failed (%s) but mrp reported success (exit status %d)", f.Job, f.Kind, r1.Exit)}, class
